@@ -142,6 +142,9 @@ TABLE.update({
     "c06_assign_prop_wrong_entity.diff": ("contracts.c16b", "lower_assign_stmt", "entity.property"),
     "c06_assign_inline_any_property.diff": ("contracts.c16b", "lower_assign_stmt", "entity.property"),
     "c20_assign_constant_not_declared.diff": ("contracts.c16b", "lower_assign_stmt", "name = expression"),
+    "c06_inlined_any_as_everything.diff": ("contracts.c16b", "_lower_inlined_bundle_condition", "BundleAnyExpr"),
+    "c06_inlinable_signal_right_side.diff": ("contracts.c16b", "_is_inlinable_bundle_condition", None),
+    "c06_inlined_operator_fixed.diff": ("contracts.c16b", "_lower_inlined_bundle_condition", "BundleAllExpr"),
     "c08_preserved_shares_network_zero.diff": ("contracts.c12", "_restore_preserved_connection", None),
     "c08_preserved_routing_failure_ignored.diff": ("contracts.c12", "_restore_preserved_connection", None),
     "c08_preserved_span_doubled.diff": ("contracts.c12", "_restore_preserved_connection", None),
